@@ -29,6 +29,7 @@ type Cache struct {
 	started    bool
 	eventSubs  map[string]*EventSubscription
 	inCh       chan *EventSubscription
+	stopCh     chan struct{}
 	unsubQueue *timerqueue.Queue
 	resetSub   mq.Unsubscriber
 
@@ -104,12 +105,14 @@ func (c *Cache) Start() error {
 		return errors.New("cache: already started")
 	}
 	inCh := make(chan *EventSubscription, 100)
+	stopCh := make(chan struct{})
 	c.eventSubs = make(map[string]*EventSubscription)
 	c.unsubQueue = timerqueue.New(c.mqUnsubscribe, c.unsubscribeDelay)
 	c.inCh = inCh
+	c.stopCh = stopCh
 
 	for i := 0; i < c.workers; i++ {
-		go c.startWorker(inCh)
+		go c.startWorker(inCh, stopCh)
 	}
 
 	resetSub, err := c.mq.Subscribe("system", func(subj string, payload []byte, _ error) {
@@ -301,21 +304,35 @@ func (c *Cache) getSubscription(name string, subscribe bool) (*EventSubscription
 	return eventSub, nil
 }
 
-// Stop closes the worker channel, stops all the workers,  and clears
-// the unsubscribe queue
+// Stop stops all the workers, and clears the unsubscribe queue. The worker
+// channel is not closed, as connections still shutting down may enqueue to it.
 func (c *Cache) Stop() {
 	if !c.started {
 		return
 	}
-	close(c.inCh)
+	close(c.stopCh)
 	c.unsubQueue.Clear()
 	c.resetSub = nil
 	c.started = false
 }
 
-func (c *Cache) startWorker(ch chan *EventSubscription) {
-	for eventSub := range ch {
-		eventSub.processQueue()
+func (c *Cache) startWorker(ch chan *EventSubscription, stopCh chan struct{}) {
+	for {
+		select {
+		case eventSub := <-ch:
+			eventSub.processQueue()
+		case <-stopCh:
+			return
+		}
+	}
+}
+
+// enqueue passes the event subscription to one of the workers, unless the
+// cache is stopped.
+func (c *Cache) enqueue(e *EventSubscription) {
+	select {
+	case c.inCh <- e:
+	case <-c.stopCh:
 	}
 }
 
